@@ -32,10 +32,10 @@ fn with_deadline<T: Send + 'static>(what: String, f: impl FnOnce() -> T + Send +
         let r = std::panic::catch_unwind(std::panic::AssertUnwindSafe(f));
         let _ = tx.send(r);
     });
-    match rx.recv_timeout(std::time::Duration::from_secs(3)) {
+    match rx.recv_timeout(std::time::Duration::from_secs(120)) {
         Ok(Ok(v)) => v,
         Ok(Err(_)) => panic!("{what} panicked"),
-        Err(_) => panic!("{what} did not return within 3 s (unbounded loop)"),
+        Err(_) => panic!("{what} did not return within 120 s (unbounded loop)"),
     }
 }
 
